@@ -7,13 +7,15 @@ pub mod util {
     use vstd::prelude::*;
     use vstd::std_specs::convert::*;
     use vstd::std_specs::ops::*;
+    use vstd::std_specs::cmp::*;
     use crate::*;
     use crate::ispec::*;
     use vstd::arithmetic::power2::pow2;
     verus! {
-    broadcast use {crate::num_bigint::axiom_into_refl_obeys, crate::num_bigint::axiom_into_refl};
+    broadcast use {crate::num_bigint::axiom_into_refl_obeys, crate::num_bigint::axiom_into_refl, crate::std_gaps::axiom_ordering_eq_obeys, crate::std_gaps::axiom_ordering_eq};
 
     //@@INCLUDE _shared/util_bigint_spec.rs
+    //@@INCLUDE _shared/util_bigint_cmp.rs
 
     //@@ITEMS util
     }
